@@ -17,9 +17,16 @@ LOOPS = [None, None, None, "A", "B", "NEW"]
 
 def program_for(sc):
     lines = ["flow main"]
+    for t in range(sc.get("trackers", 0)):
+        lines.append("  activate t%d" % t)
     for k, _f in enumerate(sc["flows"]):
         lines.append("  start c%d" % k)
     lines += ["  match Never()", ""]
+    # activated flows whose every instance lives in a loop of its own and whose next instance starts early (the shape of the
+    # shipped `continuation on undefined flow`): after the first event two instances of the same flow are alive
+    for t in range(sc.get("trackers", 0)):
+        lines += ['@loop("NEW")', "flow t%d" % t, "  match Ev()", '  start UtteranceBotAction(script="t%d-first")' % t, "  start_new_flow_instance:",
+                  "  match Ev()", '  start UtteranceBotAction(script="t%d-second")' % t, "  match Never()", ""]
     for k, f in enumerate(sc["flows"]):
         levels = f.get("levels") or [f.get("priority")]
         args = ", ".join("p%d=%d" % (i, v) for i, v in sorted((int(i), v) for i, v in f["mentions"].items()))
@@ -67,7 +74,7 @@ class C05(InterpProp):
     rule = ("one scenario = 2-6 flows waiting for the same event with 1-4 parameters; each flow mentions a subset of the parameters (specificity), optionally a priority in {0.9, 0.5, 0.1}, sits in the parent loop, "
             "loop A, loop B or a NEW loop, starts a distinct or a shared action; some flows mention a wrong value (must stay untouched). It is executed once per forced tie-break pick (0..n-1, n = size of the largest group). "
             "evaluations = executions; non-trivial = competitions with >= 2 matching flows in one loop and different actions; distinct = distinct (specificity/priority/loop/action vector, pick)")
-    expected_probes = ["chains_of_different_length", "tie_set_of_2plus", "every_tie_member_won", "shared_action_co_winners", "independent_loops", "non_matching_flow_untouched", "priority_decided"]
+    expected_probes = ["two_live_instances_of_a_new_loop_flow", "chains_of_different_length", "tie_set_of_2plus", "every_tie_member_won", "shared_action_co_winners", "independent_loops", "non_matching_flow_untouched", "priority_decided"]
     exhaustive_parts = ["every outcome of the tie-break (pick 0..n-1) for every generated competition"]
     quick_runs = 4000
     thorough_runs = 400000
@@ -90,7 +97,7 @@ class C05(InterpProp):
             levels = [d.choice(PRIORITIES, "prio", k)] + [d.choice(PRIORITIES, "lprio", k, li) for li in range(1, depth)]
             flows.append({"mentions": mentions, "priority": levels[0], "levels": levels, "loop": d.choice(LOOPS, "loop", k),
                           "action": "shared" if shared else "a%d" % k, "matches": not wrong})
-        return {"m": m, "actual": actual, "flows": flows}
+        return {"m": m, "actual": actual, "flows": flows, "trackers": d.weighted([(0, 5), (1, 3), (2, 2)], "trackers")}
 
     def run_pick(self, sc, program, pick):
         choices = []
@@ -114,6 +121,12 @@ class C05(InterpProp):
             after = {f.flow_id: (f.status.name, tuple(sorted(h.position for h in f.heads.values()))) for f in itp.state.flow_states.values()}
             starts = [(o.get("script"), o.get("action_uid")) for o in out if o["type"] == "StartUtteranceBotAction"]
             bad = I.check_quiescence(itp.state)
+            self._second = None
+            if sc.get("trackers"):
+                out2 = itp.deliver(dict(ev))
+                self._second = ([o.get("script") for o in out2 if o["type"] == "StartUtteranceBotAction"],
+                                sorted((f.flow_id, f.status.name) for f in itp.state.flow_states.values() if f.flow_id.startswith("t")))
+                bad = bad + I.check_quiescence(itp.state)
             return starts, before, after, choices, bad
         finally:
             I.uninstall_interp_seams()
@@ -192,6 +205,15 @@ class C05(InterpProp):
                         winners_seen[key].add(k)
                 if len(members) >= 2 and len(set(flows[k]["action"] for k in members)) >= 2:
                     out.nontrivial_sigs.append((tuple((len(flows[k]["mentions"]), tuple(flows[k].get("levels") or [flows[k].get("priority")]), flows[k].get("loop"), flows[k]["action"] == "shared") for k in members), pick))
+            # instances of a @loop("NEW") flow are in different loops: they never compete, neither with each other nor with anybody else
+            if sc.get("trackers") and self._second is not None:
+                out.probe("two_live_instances_of_a_new_loop_flow")
+                starts2, tstat = self._second
+                for t in range(sc["trackers"]):
+                    if started_scripts.count("t%d-first" % t) != 1:
+                        out.violate("different-loops-competed", "first-event", "tracker t%d (own loop) did not start its action on the first event: started %r" % (t, started_scripts))
+                    if starts2.count("t%d-second" % t) != 1 or starts2.count("t%d-first" % t) != 1:
+                        out.violate("different-loops-competed", "second-event", "second event: the two live instances of the @loop(\"NEW\") flow t%d must both act (scripts t%d-second and t%d-first), started %r; instances %r" % (t, t, t, starts2, tstat))
             # non-matching flows are left untouched
             for k, f in enumerate(flows):
                 if not f["matches"]:
